@@ -29,7 +29,8 @@ def corpus():
     msgs = [
         b"*IDN?", b" *IDN?", b"\t :SYST:ERR?\n", b"*ABCDEFGHIJKL", b"*ABCDEFGHIJKLM", b"ABCDEFGHIJKL:ABCDEFGHIJKLM",
         b"CMD ,1", b"CMD 1,,2", b"CMD 1, ,2", b"CMD 1,", b"CMD 1;", b"CMD 1 2", b"CMD #H+FF", b"CMD #H-FF", b"CMD #HFF,#Q77,#B11",
-        b"CMD #HFFFFFFFFFFFFFFFF", b"CMD #H10000000000000000", b"CMD #H00000000000000000001", b"CMD #HG", b"CMD #", b"CMD #X1",
+        b"CMD #HFFFFFFFFFFFFFFFF", b"CMD #H10000000000000000", b"CMD #Q3777777777777777777777", b"CMD #Q7777777777777777777777",
+        b"CMD #Q1777777777777777777777", b"CMD #Q2000000000000000000000", b"CMD #B" + b"1" * 65, b"CMD #Q" + b"7" * 43, b"CMD #H" + b"F" * 33, b"CMD #H00000000000000000001", b"CMD #HG", b"CMD #", b"CMD #X1",
         b"CMD #2+5ABCDE", b"CMD #15ABCDE", b"CMD #15ABCD", b"CMD #10,5", b"CMD #10;*IDN?", b"CMD #0abc\n", b"CMD #0abc", b"CMD #0", b"CMD #0\n",
         b"CMD #9000000010x", b"CMD #205ABCDE", b"CMD #1", b"CMD 'it''s',\"a\"\"b\"", b"CMD \"it's\"", b"CMD 'a\", \"b'", b"CMD 'abc",
         b"CMD 'a\x80'", b"CMD (1,2;3)", b"CMD (@1!2,3:4)", b"CMD (@1", b"CMD ((1))", b"CMD 1.5e+3 V/S", b"CMD 1e", b"CMD .", b"CMD +.5E-3KHZ",
